@@ -760,3 +760,9 @@ V('c02-tag-confusion-error', 'C02', 'C02.R2c',
   ('pywbem/_cim_operations.py', "        if tup_tree and _is_element_node(tup_tree[0], 'ERROR'):\n            # The operation failed", "        if tup_tree and tup_tree[0][0] == 'ERROR':\n            # The operation failed"), 'tag-confusion')
 V('c02-tag-confusion-helper', 'C02', 'C02.R2c',
   ('pywbem/_cim_operations.py', "    return node[0] == name and isinstance(node[1], dict)", "    return node[0] == name"), 'tag-confusion')
+
+# ---- C19.R7 / R8 -------------------------------------------------------------
+V('c19-envelope-reset-drift', 'C19', 'C19.R8',
+  ('pywbem/_cim_operations.py', "        self._last_raw_reply = None\n        self._last_reply_len = 0\n        self._last_server_response_time = None\n        if self.debug:\n            self._last_request = None  # will be set upon access\n            self._last_request_xml_item = req_xml\n            self._last_reply = None\n            self._last_reply_xml_item = None\n\n        # Send request and receive response\n        reply_data, self._last_server_response_time = wbem_request(\n            self, request_data, cimxml_headers)\n\n        # Set attributes recording the response, part 1.\n        # Only those that can be done without parsing (which can fail).\n        self._last_raw_reply = reply_data\n        self._last_reply_len = len(reply_data)\n\n        # Parse the XML into a tuple tree (may raise CIMXMLParseError or\n        # XMLParseError):\n        tt_ = xml_to_tupletree_sax(reply_data, \"CIM-XML response\")\n        tp = TupleParser(self.conn_id)\n        tup_tree = tp.parse_cim(tt_)\n\n        # Set attributes recording the response, part 2.\n        if self.debug:\n            self._last_reply = None  # will be set upon access\n            self._last_reply_xml_item = reply_data\n\n        # Check the tuple tree\n\n        if tup_tree[0] != 'CIM':\n            raise CIMXMLParseError(\n                _format(\"Expecting CIM element, got {0}\", tup_tree[0]),\n                conn_id=self.conn_id)\n        tup_tree = tup_tree[2]\n\n        if tup_tree[0] != 'MESSAGE':\n            raise CIMXMLParseError(\n                _format(\"Expecting MESSAGE element, got {0}\", tup_tree[0]),\n                conn_id=self.conn_id)\n        tup_tree = tup_tree[2]\n\n        if tup_tree[0] != 'SIMPLERSP':\n            raise CIMXMLParseError(\n                _format(\"Expecting SIMPLERSP element, got {0}\", tup_tree[0]),\n                conn_id=self.conn_id)\n        tup_tree = tup_tree[2]\n\n        if tup_tree[0] != 'METHODRESPONSE':",
+   "        self._last_reply = None\n        self._last_reply_len = 0\n        self._last_server_response_time = None\n        if self.debug:\n            self._last_request = None  # will be set upon access\n            self._last_request_xml_item = req_xml\n            self._last_reply = None\n            self._last_reply_xml_item = None\n\n        # Send request and receive response\n        reply_data, self._last_server_response_time = wbem_request(\n            self, request_data, cimxml_headers)\n\n        # Set attributes recording the response, part 1.\n        # Only those that can be done without parsing (which can fail).\n        self._last_raw_reply = reply_data\n        self._last_reply_len = len(reply_data)\n\n        # Parse the XML into a tuple tree (may raise CIMXMLParseError or\n        # XMLParseError):\n        tt_ = xml_to_tupletree_sax(reply_data, \"CIM-XML response\")\n        tp = TupleParser(self.conn_id)\n        tup_tree = tp.parse_cim(tt_)\n\n        # Set attributes recording the response, part 2.\n        if self.debug:\n            self._last_reply = None  # will be set upon access\n            self._last_reply_xml_item = reply_data\n\n        # Check the tuple tree\n\n        if tup_tree[0] != 'CIM':\n            raise CIMXMLParseError(\n                _format(\"Expecting CIM element, got {0}\", tup_tree[0]),\n                conn_id=self.conn_id)\n        tup_tree = tup_tree[2]\n\n        if tup_tree[0] != 'MESSAGE':\n            raise CIMXMLParseError(\n                _format(\"Expecting MESSAGE element, got {0}\", tup_tree[0]),\n                conn_id=self.conn_id)\n        tup_tree = tup_tree[2]\n\n        if tup_tree[0] != 'SIMPLERSP':\n            raise CIMXMLParseError(\n                _format(\"Expecting SIMPLERSP element, got {0}\", tup_tree[0]),\n                conn_id=self.conn_id)\n        tup_tree = tup_tree[2]\n\n        if tup_tree[0] != 'METHODRESPONSE':"),
+  'sibling-differs')
